@@ -36,3 +36,32 @@ package keyvalue
 //@     invariant elms == nil || (forall i int :: 0 <= i && i < len(results) ==> rootof(results[i].Elements) < rootof(elms))
 //@     invariant forall i int :: 0 <= i && i < len(results) ==> results[i].Count == resp.Results[i].Count && results[i].Hash == resp.Results[i].Hash && len(results[i].Elements) == len(resp.Results[i].Elements)
 //@     invariant forall i int, j int :: 0 <= i && i < j && j < len(results) && len(results[j].Elements) > 0 ==> rootof(results[i].Elements) < rootof(results[j].Elements)
+
+// C07/C12: the server side of the key-value wire adapter (same shape as headsync.HandleRangeRequest):
+// every requested range is answered, in order, with the count the local index reported and with as
+// many elements as the local answer lists; the element list of every answered range is its own fresh
+// array (a later range cannot overwrite an earlier one before the response is marshalled).
+//@ func iface ldiff.Diff.Ranges
+//@   modifies nothing
+//@ func HandleRangeRequest
+//@   requires d != nil && req != nil
+//@   assumes forall k int :: 0 <= k && k < len(req.Ranges) ==> req.Ranges[k] != nil
+//@   ensures [one_result_per_range] err == nil ==> resp != nil && len(resp.Results) == len(res)
+//@   ensures [count_copied] err == nil ==> (forall i int :: 0 <= i && i < len(res) ==> resp.Results[i] != nil && resp.Results[i].Count == wrap32(res[i].Count))
+//@   ensures [no_element_dropped] err == nil ==> (forall i int :: 0 <= i && i < len(res) ==> len(resp.Results[i].Elements) == len(res[i].Elements))
+//@   loop 0:
+//@     invariant -1 <= rangeindex && rangeindex < len(req.Ranges) && len(ranges) == rangeindex + 1
+//@   loop 1:
+//@     invariant -1 <= rangeindex && rangeindex < len(res) && resp != nil && len(resp.Results) == rangeindex + 1
+//@     invariant forall i int :: 0 <= i && i < len(resp.Results) ==> resp.Results[i] != nil && resp.Results[i].Count == wrap32(res[i].Count)
+//@     invariant forall i int :: 0 <= i && i < len(resp.Results) ==> len(resp.Results[i].Elements) == len(res[i].Elements)
+//@     invariant forall i int, j int :: 0 <= i && i < j && j < len(resp.Results) && len(resp.Results[j].Elements) > 0 ==> rootof(resp.Results[i].Elements) < rootof(resp.Results[j].Elements)
+//@   loop 2:
+//@     invariant -1 <= rangeindex && rangeindex < len(rangeRes.Elements) && len(elements) == rangeindex + 1 && resp != nil && len(resp.Results) < len(res)
+//@     invariant rootof(elements) > rootof(resp.Results) && rootof(elements) > rootof(res) && rootof(elements) > rootof(resp)
+//@     invariant forall i int :: 0 <= i && i < len(resp.Results) ==> rootof(elements) > rootof(resp.Results[i])
+//@     invariant forall i int :: 0 <= i && i < len(resp.Results) ==> resp.Results[i] != nil && resp.Results[i].Count == wrap32(res[i].Count)
+//@     invariant forall i int :: 0 <= i && i < len(resp.Results) ==> len(resp.Results[i].Elements) == len(res[i].Elements)
+//@     invariant forall i int, j int :: 0 <= i && i < j && j < len(resp.Results) && len(resp.Results[j].Elements) > 0 ==> rootof(resp.Results[i].Elements) < rootof(resp.Results[j].Elements)
+//@     invariant forall i int :: 0 <= i && i < len(resp.Results) ==> rootof(resp.Results[i].Elements) < rootof(elements)
+//@   ensures [element_lists_are_separate] err == nil ==> (forall i int, j int :: 0 <= i && i < j && j < len(res) && len(resp.Results[j].Elements) > 0 ==> rootof(resp.Results[i].Elements) < rootof(resp.Results[j].Elements))
